@@ -1,9 +1,9 @@
 /-
 Fair termination, generically: infinite executions of a labelled transition system (a label that is not
 enabled stutters), weak fairness of a class of labels, and the "helpful class" proof rule
-(Lehmann–Pnueli–Stavi / Manna–Pnueli): if every step from a state outside the goal either decreases a natural
-measure, reaches the goal, or is a step outside the helpful class that keeps both the measure and the helpful
-class, and the helpful class is enabled outside the goal, then every weakly fair execution reaches the goal.
+(Lehmann–Pnueli–Stavi / Manna–Pnueli): if every step from a state outside the goal either reaches the goal, decreases a natural
+measure, or is a step outside the helpful class that keeps both the measure and the helpful
+class (the invariant being kept in the last two cases), and the helpful class is enabled outside the goal, then every weakly fair execution reaches the goal.
 Core Lean only.
 -/
 namespace SkimModel.Fair
@@ -33,7 +33,7 @@ def WeakFair (cls : L → Bool) (e : Exec step) : Prop :=
 theorem fair_reaches {ι : Type} (cls : ι → L → Bool) (ok : L → Bool)
     (P Q : S → Prop) (mu : S → Nat) (H : S → ι)
     (hstep : ∀ s l s', P s → ¬ Q s → ok l = true → step s l = some s' →
-      P s' ∧ (mu s' < mu s ∨ Q s' ∨ (cls (H s) l = false ∧ H s' = H s ∧ mu s' = mu s)))
+      Q s' ∨ (P s' ∧ (mu s' < mu s ∨ (cls (H s) l = false ∧ H s' = H s ∧ mu s' = mu s))))
     (hen : ∀ s, P s → ¬ Q s → ¬ Disabled step (cls (H s)) s)
     (e : Exec step) (hok : ∀ n, ok (e.lab n) = true) (hfair : ∀ c, WeakFair (cls c) e) :
     ∀ (N n : Nat), P (e.st n) → mu (e.st n) ≤ N → ∃ n', n ≤ n' ∧ Q (e.st n') := by
@@ -51,14 +51,13 @@ theorem fair_reaches {ι : Type} (cls : ι → L → Bool) (ok : L → Bool)
           (P s' ∧ ¬ Q s' ∧ cls (H (e.st j)) (e.lab j) = false ∧ H s' = H (e.st j) ∧ mu s' = mu (e.st n)) := by
         intro j s' hj hPj hqj hmj hs
         have hst : e.st (j + 1) = s' := by rw [e.next j, hs]; rfl
-        obtain ⟨hP', hc⟩ := hstep _ _ _ hPj hqj (hok _) hs
         by_cases hQs : Q s'
         · exact Or.inl ⟨j + 1, by omega, by rw [hst]; exact hQs⟩
-        · rcases hc with hlt | hQ' | ⟨hcl, hH', hm'⟩
+        · rcases hstep _ _ _ hPj hqj (hok _) hs with hQ' | ⟨hP', hlt | ⟨hcl, hH', hm'⟩⟩
+          · exact absurd hQ' hQs
           · have hlt' : mu (e.st (j + 1)) < N := by rw [hst]; omega
             obtain ⟨n', hn', hQn⟩ := ih _ hlt' (j + 1) (by rw [hst]; exact hP') (Nat.le_refl _)
             exact Or.inl ⟨n', by omega, hQn⟩
-          · exact absurd hQ' hQs
           · exact Or.inr ⟨hP', hQs, hcl, hH', by rw [hm', hmj]⟩
       -- walk from n to k
       have walk : ∀ d, n + d ≤ k → (∃ n', n ≤ n' ∧ Q (e.st n')) ∨
